@@ -134,6 +134,78 @@ def runRender (cfg : RCfg) (body : List RStmt) (e : Inv) : Except Exn Ser :=
   | some r => r
   | none => .error .other
 
+/-! ### with a callback that may raise — the default `next_level = to_serializable_errs` itself -/
+
+/-- a comprehension `[next_level(x) for x in …]`: left to right, the first exception ends it -/
+def mapME (f : Inv → Except Exn Ser) : List Inv → Except Exn (List Ser)
+  | [] => .ok []
+  | e :: es => do
+    let s ← f e
+    let ss ← mapME f es
+    .ok (s :: ss)
+
+def RExp.evalM (up : List Nat) (next : Inv → Except Exn Ser) : RExp → Inv → Except Exn Ser
+  | .msgList, _ => .ok (.list [.msg])
+  | .containerMsg, _ => .ok (.dict [("__container__", .list [.msg])])
+  | .unknownKeys, _ => .ok (.dict [("__unknown_keys__", .msg)])
+  | .predMsgs, .mk (.preds pids) _ _ _ =>
+    if pids.any (fun p => up.contains p) then .error .typeError else .ok (.list (pids.map (fun _ => Ser.msg)))
+  | .indexPairs, .mk (.index idx) _ _ ch => do
+    let cs ← mapME next ch
+    .ok (.list ((idx.zip cs).map (fun p => .list [.num p.1, p.2])))
+  | .mapDict, .mk (.map _ shape) _ _ ch => do
+    let cs ← mapME next ch
+    .ok (.dict (mapEntriesS shape cs))
+  | .members, .mk .set _ _ ch => do
+    let cs ← mapME next ch
+    .ok (.dict [("member_errors", .list cs)])
+  | .keysDict, .mk (.keys ks) _ _ ch => do
+    let cs ← mapME next ch
+    .ok (.dict ((ks.zip cs).map (fun p => ("k", p.2))))
+  | .variants, .mk .union _ _ ch => do
+    let cs ← mapME next ch
+    .ok (.dict [("variants", .list cs)])
+  | .child, .mk .container _ _ ch => do
+    let cs ← mapME next ch
+    match cs with
+    | [c] => .ok c
+    | _ => .error .other
+  | _, _ => .error .other
+
+mutual
+def RStmt.execM (up : List Nat) (vcls : Nat → RVld) (next : Inv → Except Exn Ser) (e : Inv) :
+    RStmt → Option (Except Exn Ser)
+  | .ite c t f =>
+    match c.eval ⟨up, vcls, fun _ => .msg⟩ e with
+    | none => some (.error .other)
+    | some true => RStmt.execLM up vcls next e t
+    | some false => RStmt.execLM up vcls next e f
+  | .ret x => some (x.evalM up next e)
+  | .raiseTypeError => some (.error .typeError)
+  | .text => none
+  | .unsupported _ => some (.error .other)
+termination_by structural s => s
+def RStmt.execLM (up : List Nat) (vcls : Nat → RVld) (next : Inv → Except Exn Ser) (e : Inv) :
+    List RStmt → Option (Except Exn Ser)
+  | [] => none
+  | s :: rest =>
+    match s.execM up vcls next e with
+    | some r => some r
+    | none => RStmt.execLM up vcls next e rest
+termination_by structural l => l
+end
+
+def runRenderM (up : List Nat) (vcls : Nat → RVld) (next : Inv → Except Exn Ser) (body : List RStmt) (e : Inv) :
+    Except Exn Ser :=
+  match RStmt.execLM up vcls next e body with
+  | some r => r
+  | none => .error .other
+
+/-- the function calling itself: `n` bounds the depth of the recursion (0: no call at all) -/
+def runRenderFuel (up : List Nat) (vcls : Nat → RVld) (body : List RStmt) : Nat → Inv → Except Exn Ser
+  | 0, _ => .error .other
+  | n + 1, e => runRenderM up vcls (runRenderFuel up vcls body n) body e
+
 /-- the predicate classes `pred_to_err_message` has an arm for, in order; the last arm raises `TypeError` -/
 structure PredMsgSrc where
   handled : List String
